@@ -105,8 +105,17 @@ func HarnessC17() {
 		}
 		return reporter.NewHandler(nil)
 	}
+	// the file reaches the table either through Symbols.Import or by being linked against it
+	viaLink := zz.Bool()
+	imp := func(h *reporter.Handler) error {
+		if viaLink {
+			_, err := Link(parser.ResultWithoutAST(fdp2), deps, syms, h)
+			return err
+		}
+		return syms.Import(r2, h)
+	}
 	h2 := mkHandler()
-	err := syms.Import(r2, h2)
+	err := imp(h2)
 	if err == nil {
 		err = h2.Error()
 	}
@@ -122,7 +131,7 @@ func HarnessC17() {
 			zz.Assert(extAfter.Start().Filename == extOwner, "C17/failed-import-leaves-extension-owner-unchanged")
 		}
 		h3 := mkHandler()
-		err2 := syms.Import(r2, h3)
+		err2 := imp(h3)
 		if err2 == nil {
 			err2 = h3.Error()
 		}
